@@ -21,6 +21,8 @@ import (
 
 var (
 	sizeSet = []int{0, 1, 1023, 1024, 1025, 2047, 2048, 2049, 5000}
+	// sizes whose last chunk is one byte off a read-buffer size (buffer/chunk boundary)
+	nearBuf = []int{2, 6, 8, 699, 701, 1024 + 2, 1024 + 8, 1024 + 699, 1024 + 701, 2048 + 701, 4095, 4097}
 	rbSet   = []int{1, 7, 700, 1024, 4096}
 )
 
@@ -44,8 +46,10 @@ func drawSize(rt *rapid.T, label string) int {
 	switch rapid.IntRange(0, 9).Draw(rt, label+"_sel") {
 	case 0, 1, 2, 3, 4:
 		return rapid.SampledFrom(sizeSet).Draw(rt, label)
-	case 5, 6:
+	case 5:
 		return rapid.IntRange(1018, 1030).Draw(rt, label)
+	case 6:
+		return rapid.SampledFrom(nearBuf).Draw(rt, label)
 	case 7:
 		return 1024 * rapid.IntRange(1, 5).Draw(rt, label)
 	default:
@@ -93,6 +97,10 @@ func TestC17Stream(t *testing.T) {
 		c.Desc("keys=%s/%s", kindA, kindB)
 		c.Class("keys=" + kindA + "/" + kindB)
 
+		// sequential phase: every write completes before the next read, so a read that would block
+		// means bytes were lost (strict wires turn that into an error instead of a hang)
+		s.L.XY.SetStrict(true)
+		s.L.YX.SetStrict(true)
 		conn := [2]io.ReadWriter{s.A, s.B} // writer of direction d is conn[d], reader is conn[1-d]
 		var pending [2][]byte              // written, not yet read, per direction
 		var wrote [2]int
@@ -158,6 +166,8 @@ func TestC17Stream(t *testing.T) {
 			rb := rapid.SampledFrom(rbSet[1:]).Draw(rt, "duplex_rb")
 			c.Desc("duplex:%d/%d rb=%d", szs[0], szs[1], rb)
 			c.Class("duplex")
+			s.L.XY.SetStrict(false)
+			s.L.YX.SetStrict(false)
 			errc := make(chan error, 4)
 			for d := 0; d < 2; d++ {
 				data := payload(dseed, uint64(1000+d), szs[d])
